@@ -5,60 +5,39 @@ package main
 import (
 	"fmt"
 
+	"github.com/makiuchi-d/gozxing"
 	"github.com/makiuchi-d/gozxing/oned"
-	"verifharness/ref/onedref"
 )
 
-func runs(p []bool) []int {
-	var out []int
-	for i := 0; i < len(p); {
-		j := i
-		for j < len(p) && p[j] == p[i] {
-			j++
-		}
-		out = append(out, j-i)
-		i = j
-	}
-	return out
-}
-
 func main() {
-	for _, s := range []string{"01001423", "16000478", "16003007"} {
-		p := onedref.UPCEPattern(s)
-		fmt.Println("symbol", s, onedref.PatternString(p))
-		rev := make([]bool, len(p))
-		for i := range p {
-			rev[i] = p[len(p)-1-i]
-		}
-		fmt.Println("reversed   ", onedref.PatternString(rev))
-		r := runs(rev)
-		fmt.Println("runs (bar first):", r)
-		// reader: start guard = runs 0..2, digit k = runs 3+4k..7+4k, end = runs 27..33
-		fmt.Println(" start guard", r[0:3])
-		for k := 0; k < 6; k++ {
-			win := r[3+4*k : 7+4*k]
-			tot := 0
-			for _, v := range win {
-				tot += v
+	w := oned.NewUPCEWriter()
+	rd := oned.NewUPCEReader()
+	for _, c := range []string{"07252389", "19999999", "01234565", "00000000", "05096893"} {
+		for _, cfg := range [][3]int{{0, 1, -1}, {0, 10, -1}, {0, 10, 9}, {0, 10, 10}, {0, 10, 11}, {0, 10, 12}, {0, 10, 13}, {120, 10, -1}, {180, 10, -1}, {371, 5, -1}} {
+			var h map[gozxing.EncodeHintType]interface{}
+			if cfg[2] >= 0 {
+				h = map[gozxing.EncodeHintType]interface{}{gozxing.EncodeHintType_MARGIN: cfg[2]}
 			}
-			best, bi := 9.9, -1
-			for i, pat := range oned.UPCEANReader_L_AND_G_PATTERNS {
-				sc := make([]int, 4)
-				for j := range win {
-					sc[j] = win[j] * 3
-				}
-				v := oned.PatternMatchVariance(sc, pat, oned.UPCEANReader_MAX_INDIVIDUAL_VARIANCE)
-				if v < best {
-					best, bi = v, i
+			m, err := w.Encode(c, gozxing.BarcodeFormat_UPC_E, cfg[0], cfg[1], h)
+			if err != nil {
+				fmt.Println(c, cfg, "encode", err)
+				continue
+			}
+			bmp, _ := gozxing.NewBinaryBitmapFromImage(m)
+			res, err := rd.Decode(bmp, nil)
+			row := ""
+			for x := 0; x < m.GetWidth() && m.GetWidth() < 80; x++ {
+				if m.Get(x, 0) {
+					row += "1"
+				} else {
+					row += "0"
 				}
 			}
-			fmt.Printf(" digit %d window %v total %d modules -> best %d (set %s) variance %.3f (limit 0.48), matched pattern %v\n", k, win, tot, bi%10, map[bool]string{false: "L", true: "G"}[bi >= 10], best, oned.UPCEANReader_L_AND_G_PATTERNS[bi])
+			if err != nil {
+				fmt.Println(c, cfg, m.GetWidth(), "->", err, row)
+			} else {
+				fmt.Println(c, cfg, m.GetWidth(), "->", res.GetText(), row)
+			}
 		}
-		end := r[27:33]
-		sc := make([]int, 6)
-		for j := range end {
-			sc[j] = end[j] * 3
-		}
-		fmt.Printf(" end guard window %v variance %.3f vs {1,1,1,1,1,1}\n", end, oned.PatternMatchVariance(sc, oned.UPCEANReader_END_PATTERN, 0.7))
 	}
 }
